@@ -274,6 +274,7 @@ let rec handle c (x : xs) (g : int) (ph : phase) (k : int) (a : int) (b : int) :
        | Some y when y.m.V.vrp = A.RWork -> hit "sleep_done"; [started_exec kc (set_ph y g (GRepld kc))] | _ -> [])
   | GRepld kc, 4 -> st (GRunPre kc)
   | GSleepU kc, 11 -> st (GSleepS kc)
+  | ph, 11 -> st ph      (* any other announced sleep (a delay added somewhere, a second sleep of the wait) is not a protocol step *)
   | (GSleepU kc | GSleepS kc), 3 -> st (GSleepL kc)
   | GSleepL kc, 1 -> st (GReplL (kc, 2))
   | GWait kc, 5 ->
